@@ -20,7 +20,7 @@ package s3
 //@ assumption A-s3: the S3 client behaves as the abstract contracts of S3Interface state (a successful GET returns the object's bytes, a GET of a missing key fails, a successful PUT stores the body bytes atomically under bucket/key and touches nothing else); io.ReadAll returns everything the reader yields; bytes.NewReader yields its argument
 
 //@ abstract aws.String (v) -> (r)
-//@ modifies W Box.Bytes@fresh
+//@ modifies W Box.Bytes@fresh Arr.Any@fresh
 //@ ensures def (and (> r W0) (<= r W) (= (Box.Bytes H r) v))
 
 //@ abstract bytes.NewReader (b) -> (r)
@@ -44,16 +44,22 @@ package s3
 //@ ensures fail (=> (isErr err) (and (= (G.s3Has H) (G.s3Has H0)) (= (G.s3Data H) (G.s3Data H0))))
 //@ ensures frame (OthersSameS3 H0 H (deref.Bytes H0 (s3.PutObjectInput.Bucket H0 input)) (deref.Bytes H0 (s3.PutObjectInput.Key H0 input)))
 
+// the backend is configured with exactly the bucket and prefix it is given
+//@ func NewPersist
+//@ tags C18
+//@ modifies W Box.Bytes@fresh Arr.Any@fresh
+//@ ensures fields [C18] (and (= (S_Persist.s3 result) client) (= (S_Persist.BucketName result) bucketName) (= (S_Persist.Prefix result) prefix) (= (S_Persist.EndpointURL result) endpointURL))
+
 //@ func (*Persist).Load
 //@ tags C18
-//@ modifies W Box.Bytes@fresh s3.GetObjectInput.*@fresh s3.GetObjectOutput.*@fresh
+//@ modifies W Box.Bytes@fresh Arr.Any@fresh s3.GetObjectInput.*@fresh s3.GetObjectOutput.*@fresh
 //@ requires nn (and (> p 0) (not (isNil (Persist.s3 H p))))
 //@ ensures ok [C18] (=> (= err anil) (and (ohas H0 (Persist.BucketName H0 p) (cat (Persist.Prefix H0 p) name)) (= (bs.val result0) (odata H0 (Persist.BucketName H0 p) (cat (Persist.Prefix H0 p) name)))))
 //@ ensures missing [C18] (=> (not (ohas H0 (Persist.BucketName H0 p) (cat (Persist.Prefix H0 p) name))) (isErr err))
 
 //@ func (Persist).Store
 //@ tags C18
-//@ modifies W G.s3Has G.s3Data Box.Bytes@fresh s3.PutObjectInput.*@fresh Persist.*@fresh
+//@ modifies W G.s3Has G.s3Data Box.Bytes@fresh Arr.Any@fresh s3.PutObjectInput.*@fresh Persist.*@fresh
 //@ requires nn (not (isNil (S_Persist.s3 p)))
 //@ ensures ok [C18] (=> (= err anil) (and (ohas H (S_Persist.BucketName p) (cat (S_Persist.Prefix p) name)) (= (odata H (S_Persist.BucketName p) (cat (S_Persist.Prefix p) name)) (bs.val b))))
 //@ ensures fail [C18] (=> (isErr err) (and (= (G.s3Has H) (G.s3Has H0)) (= (G.s3Data H) (G.s3Data H0))))
